@@ -584,6 +584,13 @@ FLOAT32_CONSTANT_EXEMPT = {
 }
 
 
+# confirmed with a witness (triage/witnesses/c09_float32_rounded_constants.py): the value is combined with a tensor that is DOUBLE in a double-precision export
+FLOAT32_CONSTANT_CONFIRMED = {
+    ("jax2onnx/plugins/jax/numpy/windows.py", "scale_val"), ("jax2onnx/plugins/jax/numpy/windows.py", "bias_val"),
+    ("jax2onnx/plugins/equinox/eqx/nn/multihead_attention.py", "1.0 / math.sqrt(float(qk_size))"),
+}
+
+
 def rule_h(res: Results, idx: Index) -> None:
     """A lowering that computes a constant in Python (1 / sqrt(d), 0.46 / (21 / 46)) holds it in double precision; writing it
     down as `np.asarray(<expr>, dtype=np.float32)` rounds it to 24 bits before the converter's type policy widens it again, so a
@@ -616,6 +623,8 @@ def rule_h(res: Results, idx: Index) -> None:
                 reason = FLOAT32_CONSTANT_EXEMPT.get((m.rel, src(a, 40)))
                 if reason:
                     res.ok("R-C09h", site, key, f"listed: {reason}", fi.qualname)
+                elif (m.rel, src(a, 40)) not in FLOAT32_CONSTANT_CONFIRMED:
+                    res.unresolved("R-C09h", site, key, f"`{src(c, 70)}`: a computed value made float32 by a literal dtype; not triaged (neither listed as operator-mandated nor confirmed to reach arithmetic with a double tensor)", fi.qualname)
                 else:
                     res.violation("R-C09h", site, key, f"`{src(c, 70)}` rounds a value computed in Python to float32 whatever the export's precision: in a double-precision export the constant is widened back "
                                   "with 24 significant bits (hidden single-precision round trip)", fi.qualname)
